@@ -51,7 +51,7 @@ var defaultMsgs = []string{"raise coverage from 80% to 100%d of %s", "quote\npar
 
 func weightsDefault() map[string]int {
 	return map[string]int{"write": 14, "remove": 4, "rmdir": 2, "touch": 2, "rewrite": 2, "add": 14, "rm": 4, "commit": 9, "restore": 4, "restores": 4,
-		"reset": 5, "branch": 3, "branchd": 2, "branchr": 2, "switch": 3, "switchc": 2, "config": 2, "updateref": 2, "settz": 1, "ignore": 0, "raw": 0, "mkdir": 1, "writetree": 1, "cpdir": 1, "hashobject": 1}
+		"reset": 5, "branch": 3, "branchd": 2, "branchr": 2, "switch": 3, "switchc": 2, "config": 2, "updateref": 2, "settz": 1, "ignore": 0, "raw": 0, "mkdir": 1, "writetree": 1, "cpdir": 1, "hashobject": 1, "revparse": 0}
 }
 
 func pickW(rng *rand.Rand, w map[string]int) string {
@@ -168,6 +168,8 @@ func (p *Profile) genEvent(rng *rand.Rand, tr *Trace) M {
 				}
 				if len(dirs) > 0 {
 					dyn = append(dyn, "@ROOT@/"+dirs[rng.Intn(len(dirs))], "../root/"+dirs[rng.Intn(len(dirs))], "./"+dirs[rng.Intn(len(dirs))]+"/")
+					// a directory the way shell completion writes it, and behind "./"
+					dyn = append(dyn, dirs[rng.Intn(len(dirs))]+"/", "./"+dirs[rng.Intn(len(dirs))], dirs[rng.Intn(len(dirs))]+"/")
 				}
 				if rng.Intn(3) == 0 {
 					s = dyn[rng.Intn(len(dyn))]
@@ -415,6 +417,20 @@ func (p *Profile) genEvent(rng *rand.Rand, tr *Trace) M {
 		return M{"ev": "write", "p": ".goitignore", "c": tr.AddContent([]byte(txt))}
 	case "writetree":
 		return M{"ev": "writetree"}
+	case "revparse":
+		// several names in one call, HEAD before and after branch names
+		if len(branches) == 0 {
+			return nil
+		}
+		var ns []any
+		for i, n := 0, 1+rng.Intn(3); i < n; i++ {
+			if b := branches[rng.Intn(len(branches))]; rng.Intn(3) == 0 || strings.ToLower(b) == "head" {
+				ns = append(ns, "HEAD")
+			} else {
+				ns = append(ns, EscS(b))
+			}
+		}
+		return M{"ev": "revparse", "names": ns}
 	case "hashobject":
 		// several files in one call, longer ones before shorter ones as often as the other way round
 		if len(wtFiles) == 0 {
